@@ -49,8 +49,18 @@ class LostWake:
             elif k == 'buffer':
                 # ready = the delay has fully elapsed (no rounding allowance: with decimal times the wake-up
                 # is scheduled for stored + delay, which may lie one ulp after an instant that happens to exist)
-                slack = (now - dev._buffer[0][0]) - dev.minimum_delay if dev._buffer else -1
-                if dev._buffer and (slack > 4 * math.ulp(now) if self.decimal else slack >= 0):
+                # (the arrival stamp of the oldest part has no public accessor; if the private queue is not the list of
+                #  (stamp, part) pairs any more, buffers are not probed and the run says so)
+                try:
+                    stamp = dev._buffer[0][0] if dev._buffer else None
+                    ok = stamp is None or dev._buffer[0][1] is dev.stored_parts[0]
+                except Exception:
+                    ok = False
+                if not ok:
+                    self.ctx.count('buffer_internals_not_visible')
+                    continue
+                slack = (now - stamp) - dev.minimum_delay if stamp is not None else -1
+                if stamp is not None and (slack > 4 * math.ulp(now) if self.decimal else slack >= 0):
                     out.append((did, 'buf'))
         return out
 
